@@ -81,7 +81,7 @@ let replay ic oc =
           output_string oc l; output_char oc '\n';
           (match nums_of_line l with
            | M.N0 :: _ -> st := Some M.initial
-           | M.Npos M.XH :: cps ->
+           | M.Npos M.XH :: cps | M.Npos (M.XI M.XH) :: cps ->
              (match M.parse_state !dbg cps with
               | M.Ok s -> st := Some s
               | _ -> st := None; output_string oc "X I\n")
@@ -127,6 +127,7 @@ let replay ic oc =
           output_string oc l; output_char oc '\n';
           (match nums_of_line l with
            | [v] -> emit oc 'Z' (M.run_square_maps v)
+           | [_; x] -> emit oc 'Z' (M.run_from_bit_board x)
            | _ -> ())
         | _ -> ()
       end
@@ -150,6 +151,8 @@ let monitor ic oc =
   let dbg = ref true in
   let case_line = ref 0 in
   let reach = ref true in
+  let inv = ref true in
+  let nopanic = ref true in
   let ghost : M.ghost option ref = ref None in
   let last_blk : (M.n * M.n list) list option ref = ref None in
   let pending : ((M.n * M.n list) list * M.n) option ref = ref None in
@@ -168,12 +171,13 @@ let monitor ic oc =
       match l.[0] with
       | 'M' -> (match nums_of_line l with [d] -> dbg := not (is_zero d) | _ -> ())
       | 'C' ->
-        case_line := ln; reach := true; ghost := None; last_blk := None; pending := None
+        case_line := ln; reach := true; inv := true; nopanic := true; ghost := None; last_blk := None; pending := None
       | 'I' ->
         (match nums_of_line l with
          | M.N0 :: _ -> ()
          | M.Npos M.XH :: _ -> ()
-         | _ -> reach := false);
+         | M.Npos (M.XI M.XH) :: _ -> reach := false; inv := false
+         | nums -> reach := false; nopanic := false; inv := List.length nums >= 16);
         last_blk := None; pending := None
       | 'A' ->
         (match !last_blk, nums_of_line l with
@@ -181,7 +185,7 @@ let monitor ic oc =
          | _ -> pending := None);
         last_blk := None;
         if !i < n && String.length arr.(!i) > 2 && arr.(!i).[0] = 'X' && arr.(!i).[2] = 'A' then begin
-          if !reach then report ln [(n_of_int 19, n_of_int 65)];
+          if !nopanic then report ln [(n_of_int 19, n_of_int 65)];
           pending := None
         end
       | 'O' ->
@@ -199,20 +203,20 @@ let monitor ic oc =
         done;
         let blk = List.rev !blk in
         incr blocks;
-        if is_zero k || k = M.Npos M.XH then report ln (M.mon_block !dbg !reach blk)
-        else if !reach then begin
+        if is_zero k || k = M.Npos M.XH then report ln (M.mon_block !dbg !reach !inv !nopanic blk)
+        else if !nopanic then begin
           (* S-only block: a missing S line is a panic while reading the state *)
           match M.get (tag_n 'S') blk with None -> report ln [(n_of_int 19, tag_n 'S')] | Some _ -> ()
         end;
         (match !pending with
-         | Some (b, a) when !reach ->
+         | Some (b, a) when !inv ->
            incr trans;
            let g = match !ghost with Some g -> g | None ->
              (match M.get (tag_n 'S') b with
               | Some sl -> (match M.dec_state sl with Some s -> M.ghost_init s | None -> M.ghost_init M.initial)
               | None -> M.ghost_init M.initial) in
            if not (M.trans_state_eq b a blk) then report ln [(M.N0, n_of_int 4)];
-           let (fs, g') = M.mon_trans g b a blk in
+           let (fs, g') = M.mon_trans !reach g b a blk in
            report ln fs;
            ghost := Some g'
          | _ -> ());
@@ -244,6 +248,10 @@ let monitor ic oc =
          | [v] when !i < n && String.length arr.(!i) > 0 && arr.(!i).[0] = 'Z' ->
            incr parses;
            report ln (M.mon_square v (nums_of_line arr.(!i)));
+           incr i
+         | [_; x] when !i < n && String.length arr.(!i) > 0 && arr.(!i).[0] = 'Z' ->
+           incr parses;
+           report ln (M.mon_from_bit_board x (nums_of_line arr.(!i)));
            incr i
          | _ -> ())
       | _ -> ()
